@@ -56,14 +56,17 @@ namespace xtl
 #endif
         std::memset(buffer, '\0', sizeof(buffer));
 #if defined(__linux__)
-        if (readlink("/proc/self/exe", buffer, sizeof(buffer)) != -1)
+        // readlink neither null-terminates nor reports truncation: use the returned
+        // length and grow the buffer until the whole link target fits
+        path.resize(sizeof(buffer));
+        ssize_t length = readlink("/proc/self/exe", &path[0], path.size());
+        while (length != -1 && static_cast<std::size_t>(length) == path.size())
         {
-            path = buffer;
+            path.resize(path.size() * 2);
+            length = readlink("/proc/self/exe", &path[0], path.size());
         }
-        else
-        {
-            // failed to determine run path
-        }
+        // on failure the run path could not be determined and path is left empty
+        path.resize(length != -1 ? static_cast<std::size_t>(length) : 0);
 #elif defined (_WIN32)
     #if defined(UNICODE)
         if (GetModuleFileNameW(nullptr, buffer, sizeof(buffer)) != 0)
